@@ -58,6 +58,54 @@ theorem C03_reports_leak_payload_difference (F : Perm) (fuel : Nat) (m e : Bytes
   rw [hc1, hc2]
   exact C03_keystream_reuse F _ _ _ _
 
+/-- (W) **Keystream reuse continues beyond the first block** as long as the payloads agree: if two
+payloads share a prefix `c` of whole blocks (`c.length` a multiple of 166), the ciphertexts agree on
+it and on the NEXT block their XOR is again the XOR of the plaintexts - for every `F`. (A long
+measurement is such a common prefix: the associated data of its reports leak the same way wherever
+they start.) -/
+theorem C03_keystream_reuse_common_prefix (F : Perm) (key c d1 d2 : Bytes) (label : String)
+    (hc : c.length % rate = 0) :
+    (encrypt F key (c ++ d1) label).take c.length = (encrypt F key (c ++ d2) label).take c.length ∧
+    Bytes.xor (((encrypt F key (c ++ d1) label).drop c.length).take rate)
+        (((encrypt F key (c ++ d2) label).drop c.length).take rate) =
+      Bytes.xor (d1.take rate) (d2.take rate) := by
+  obtain ⟨h1, ks, h2, h3⟩ := sendEnc_common_prefix F (Strobe.key F (Strobe.new F (Bytes.ofString label)) key) c d1 d2 hc
+  refine ⟨h1, ?_⟩
+  unfold encrypt
+  rw [h2, h3, xorKs_xor]
+
+/-- two payloads of one measurement agree on `len | measurement` -/
+theorem payload_common (m : Bytes) (aux1 aux2 : Option Bytes) (n : Nat) (hn : n ≤ 4 + m.length) :
+    (payload m aux1).take n = (payload m aux2).take n := by
+  have hl : (Adss.storeBytes m).length = 4 + m.length := by
+    unfold Adss.storeBytes; simp [Bytes.le32_length]
+  unfold payload
+  rw [List.take_append_of_le_length (by omega), List.take_append_of_le_length (by omega)]
+
+/-- (W) at the level of reports, for every whole number of blocks `n` inside `len | measurement`:
+the two ciphertexts agree up to `n` and leak the payload difference on the block that starts there -/
+theorem C03_reports_leak_beyond_first_block (F : Perm) (fuel : Nat) (m e : Bytes) (t : Nat) (rnd : Bytes)
+    (aux1 aux2 : Option Bytes) (x1 x2 : Nat) (r1 r2 : Message)
+    (h1 : generate F fuel m e t rnd aux1 x1 = some (.ok r1))
+    (h2 : generate F fuel m e t rnd aux2 x2 = some (.ok r2))
+    (n : Nat) (hn : n % rate = 0) (hle : n ≤ 4 + m.length) :
+    r1.ciphertext.take n = r2.ciphertext.take n ∧
+    Bytes.xor ((r1.ciphertext.drop n).take rate) ((r2.ciphertext.drop n).take rate) =
+      Bytes.xor (((payload m aux1).drop n).take rate) (((payload m aux2).drop n).take rate) := by
+  obtain ⟨_, _, _, _, hc1⟩ := generate_ok F fuel m e t rnd aux1 x1 r1 h1
+  obtain ⟨_, _, _, _, hc2⟩ := generate_ok F fuel m e t rnd aux2 x2 r2 h2
+  have hp1 : 4 + m.length ≤ (payload m aux1).length := by
+    unfold payload Adss.storeBytes; simp [Bytes.le32_length]
+  have hcl : ((payload m aux1).take n).length = n := by rw [List.length_take]; omega
+  have e1 : payload m aux1 = (payload m aux1).take n ++ (payload m aux1).drop n := (List.take_append_drop _ _).symm
+  have e2 : payload m aux2 = (payload m aux1).take n ++ (payload m aux2).drop n := by
+    rw [payload_common m aux1 aux2 n hle]; exact (List.take_append_drop _ _).symm
+  have := C03_keystream_reuse_common_prefix F (deriveSkeKey F (deriveRandom F rnd 0) e)
+    ((payload m aux1).take n) ((payload m aux1).drop n) ((payload m aux2).drop n) Params.starEncryptLabel
+    (by rw [hcl]; exact hn)
+  rw [hcl, ← e1, ← e2, ← hc1, ← hc2] at this
+  exact this
+
 /-- (U, partial) what does hold: the report carries the payload only through the encryption under
 the threshold-protected key, and that key's holder recovers it exactly (C01); the report's other
 parts do not depend on the associated data at all. -/
@@ -76,5 +124,10 @@ theorem C03_partial_dataflow (F : Perm) (fuel : Nat) (m e : Bytes) (t : Nat) (rn
 example : Bytes.xor (encrypt id [1] [0, 0, 0, 1, 9, 0, 0, 0, 1, 7] "x")
     (encrypt id [1] [0, 0, 0, 1, 9, 0, 0, 0, 1, 8] "x") = [0, 0, 0, 0, 0, 0, 0, 0, 0, 15] :=
   (C03_keystream_reuse_short id [1] _ _ "x" (by decide) (by decide)).trans (by decide)
+
+-- ... and beyond the first block: a 166-byte common prefix, then differing bytes
+example : Bytes.xor ((encrypt id [1] (List.replicate 166 7 ++ [9, 9]) "x").drop 166)
+    ((encrypt id [1] (List.replicate 166 7 ++ [9, 8]) "x").drop 166) = [0, 1] := by
+  decide +kernel
 
 end StarModel.Props.C03
